@@ -27,12 +27,16 @@ type c17member struct {
 }
 
 type c17die struct{ reason error }
+type c17busy struct{ d time.Duration }
 
 func (m *c17member) Init(args ...any) error {
 	m.w.mu.Lock()
 	fail := m.w.failAt == m.idx
 	m.w.initOrder = append(m.w.initOrder, m.idx)
 	m.w.mu.Unlock()
+	if m.w.busy > 0 && !fail {
+		m.Send(m.PID(), c17busy{m.w.busy})
+	}
 	if fail {
 		// a failing init that takes a moment: the members started before it are asleep by then
 		if d := m.w.failDelay; d > 0 {
@@ -47,6 +51,9 @@ func (m *c17member) HandleMessage(from gen.PID, msg any) error {
 	if d, ok := msg.(c17die); ok {
 		return d.reason
 	}
+	if b, ok := msg.(c17busy); ok {
+		time.Sleep(b.d)
+	}
 	return nil
 }
 
@@ -56,6 +63,8 @@ type c17world struct {
 	n         int
 	failAt    int
 	failDelay time.Duration
+	busy      time.Duration // members are busy in a callback for this long right after their init
+	unnamed   bool          // members are not registered under a name
 	initOrder []int
 	starts    []gen.ApplicationMode
 	terms     []error
@@ -69,8 +78,12 @@ func (a *c17app) Load(node gen.Node, args ...any) (gen.ApplicationSpec, error) {
 	spec := gen.ApplicationSpec{Name: w.name, Mode: gen.ApplicationModeTemporary}
 	for i := 0; i < w.n; i++ {
 		i := i
+		nm := gen.Atom(fmt.Sprintf("%s_m%d", w.name, i))
+		if w.unnamed {
+			nm = ""
+		}
 		spec.Group = append(spec.Group, gen.ApplicationMemberSpec{
-			Name:    gen.Atom(fmt.Sprintf("%s_m%d", w.name, i)),
+			Name:    nm,
 			Factory: func() gen.ProcessBehavior { return &c17member{w: w, idx: i} },
 		})
 	}
@@ -117,6 +130,7 @@ func runC17(c *Ctx) {
 	defer k.Stop()
 	c17witnessD6(c, k)
 	c17depends(c, k)
+	c17failedThenStart(c, k)
 	n := c.N(80, 3000)
 	for it := 0; it < n; it++ {
 		w := &c17world{name: k.NextName("c17app"), n: 1 + c.Rng.Intn(4), failAt: -1}
@@ -276,6 +290,19 @@ func runC17(c *Ctx) {
 					k.Node.Kill(pid)
 				}
 				waitUntilGone(k, pid)
+				// the process table forgets the pid before the application is told: wait for the application's view
+				waitUntil(2*time.Second, func() bool {
+					ai, err := k.Node.ApplicationInfo(w.name)
+					if err != nil {
+						return true
+					}
+					for _, g := range ai.Group {
+						if g == pid {
+							return false
+						}
+					}
+					return true
+				})
 				// the members that were sent a shutdown by the mode rule terminate too: record them as model steps
 				obs := observe()
 				lines = append(lines, fmt.Sprintf("exit %d %s", i, rs))
@@ -619,3 +646,94 @@ func (a *c17depApp) Load(node gen.Node, args ...any) (gen.ApplicationSpec, error
 }
 func (a *c17depApp) Start(mode gen.ApplicationMode) { a.started() }
 func (a *c17depApp) Terminate(reason error) {}
+
+
+// c17failedThenStart: a start that fails in a later member (the earlier ones are killed, some of them while busy, so
+// they terminate a moment later) followed at once by a start that succeeds. The members of the failed start are not
+// members of the new run: it must be running afterwards, with its members alive and no Terminate callback.
+func c17failedThenStart(c *Ctx, k *K4) {
+	r := c.R
+	rounds := c.N(40, 800)
+	for it := 0; it < rounds; it++ {
+		w := &c17world{name: k.NextName("c17fs"), n: 2 + c.Rng.Intn(3), failAt: -1, unnamed: !c.Rng.Chance(1, 4)}
+		w.busy = []time.Duration{0, 100 * time.Microsecond, 500 * time.Microsecond}[c.Rng.Intn(3)]
+		app := &c17app{w: w}
+		if _, err := k.Node.ApplicationLoad(app); err != nil {
+			r.Disagree("c17.load", err.Error(), nil)
+			return
+		}
+		w.mu.Lock()
+		w.failAt = 1 + c.Rng.Intn(w.n-1)
+		w.mu.Unlock()
+		mode := []gen.ApplicationMode{gen.ApplicationModeTemporary, gen.ApplicationModeTransient, gen.ApplicationModePermanent}[c.Rng.Intn(3)]
+		start := func() (error, bool) {
+			return c17call(func() error {
+				switch mode {
+				case gen.ApplicationModeTransient:
+					return k.Node.ApplicationStartTransient(w.name, gen.ApplicationOptions{})
+				case gen.ApplicationModePermanent:
+					return k.Node.ApplicationStartPermanent(w.name, gen.ApplicationOptions{})
+				}
+				return k.Node.ApplicationStartTemporary(w.name, gen.ApplicationOptions{})
+			})
+		}
+		e1, hung := start()
+		if hung {
+			r.Violation("C17/start-hangs", "a failing ApplicationStart did not return within 8 s", nil)
+			return
+		}
+		w.mu.Lock()
+		failedAt := w.failAt
+		w.failAt = -1
+		w.mu.Unlock()
+		e2, hung := start()
+		if hung {
+			r.Violation("C17/start-hangs", "ApplicationStart after a failed start did not return within 8 s", nil)
+			return
+		}
+		time.Sleep(time.Duration(200+c.Rng.Intn(800)) * time.Microsecond)
+		waitUntil(time.Second, func() bool {
+			ai, err := k.Node.ApplicationInfo(w.name)
+			if err != nil {
+				return true
+			}
+			for _, g := range ai.Group {
+				if pi, err := k.Node.ProcessInfo(g); err == nil && pi.State != gen.ProcessStateSleep {
+					return false
+				}
+			}
+			return true
+		})
+		ai, _ := k.Node.ApplicationInfo(w.name)
+		alive := 0
+		for _, g := range ai.Group {
+			if _, err := k.Node.ProcessInfo(g); err == nil {
+				alive++
+			}
+		}
+		w.mu.Lock()
+		ns, nt := len(w.starts), len(w.terms)
+		w.mu.Unlock()
+		rp := map[string]interface{}{"members": w.n, "failing_member": failedAt, "mode": string(mode), "busy_after_init_us": w.busy.Microseconds(),
+			"history": "ApplicationStart (member init fails) ; ApplicationStart"}
+		switch {
+		case e1 == nil:
+			r.Violation("C17/failed-start-succeeds", "ApplicationStart returned nil although a member's init failed", rp)
+		case e2 == gen.ErrTaken:
+			// a killed member of the failed start still holds its registered name: the new member cannot be spawned yet
+			r.Count("failed-then-start.name-still-taken")
+		case e2 != nil:
+			r.Violation("C17/start-after-failed-start", fmt.Sprintf("the start after a failed start returned %v", e2), rp)
+		case ai.State != gen.ApplicationStateRunning || alive != w.n || ns != 1 || nt != 0:
+			r.Violation("C17/stale-member-of-failed-start", fmt.Sprintf("after a failed start and a successful one the application is %s with %d of %d members alive, Start ran %d time(s), Terminate %d time(s): a member killed by the failed start was counted as the last member of the new run", ai.State, alive, w.n, ns, nt), rp)
+		}
+		r.Case(fmt.Sprintf("failed-then-start/%d/%d/%s/%v", w.n, failedAt, mode, w.busy), true)
+		r.Count("failed-then-start")
+		k.Node.ApplicationStopForce(w.name)
+		waitUntil(2*time.Second, func() bool {
+			ai, err := k.Node.ApplicationInfo(w.name)
+			return err != nil || ai.State == gen.ApplicationStateLoaded
+		})
+		k.Node.ApplicationUnload(w.name)
+	}
+}
